@@ -21,12 +21,12 @@ demo_clean = r0.returncode == 0
 ap = run(f'git apply {src}/patch.diff')
 if ap.returncode != 0:
     print('PATCH DOES NOT APPLY', ap.stderr); sys.exit(1)
-r1 = run(f'cargo test --lib --offline {fa}')
+r1 = run('cargo test --lib --offline')  # the pinned suite runs with default features
 m = re.search(r'test result: (\w+)\. (\d+) passed; (\d+) failed', r1.stdout)
 unit_ok = bool(m and m.group(1) == 'ok' and int(m.group(3)) == 0)
 unit_n = int(m.group(2)) if m else -1
 r2 = run(f'cargo test --test demo --offline {fa}')
-demo_mut_fails = r2.returncode != 0 and 'test result: FAILED' in r2.stdout
+demo_mut_fails = r2.returncode != 0 and ('test result: FAILED' in r2.stdout or 'could not compile' in r2.stderr)
 run('git checkout -- . && rm -rf tests')
 print(f'demo passes on clean tree: {demo_clean}; with patch: unit tests ok={unit_ok} ({unit_n} passed), demo fails={demo_mut_fails}')
 if not (demo_clean and unit_ok and demo_mut_fails):
@@ -42,7 +42,7 @@ except Exception as e:
 meta['property'] = prop
 meta['confirmed'] = {
     'worktree_commit': run('git rev-parse --short HEAD').stdout.strip(),
-    'commands': [f'cargo test --test demo --offline {fa} (clean tree: pass)', f'git apply patch.diff; cargo test --lib --offline {fa} ({unit_n} passed, 0 failed)', f'cargo test --test demo --offline {fa} (with patch: FAILED)'],
+    'commands': [f'cargo test --test demo --offline {fa} (clean tree: pass)', f'git apply patch.diff; cargo test --lib --offline ({unit_n} passed, 0 failed)', f'cargo test --test demo --offline {fa} (with patch: FAILED)'],
 }
 if '--no-check' not in sys.argv:
     r = subprocess.run(['/verif/tools/mutx.py', prop, '--patch', f'{dst}/patch.diff'], capture_output=True, text=True)
